@@ -6,6 +6,89 @@ import subprocess
 from checks.common import CheckResult, VERIF, VENV_PY, replay_header, repo_src
 
 
+def decoder_vs_schema(res, env, tier):
+    """Third ground decision: the decoder configured strict / lax by the repository's own rebuild entry point vs the
+    published schema files (a JSON-schema validator), on documents and one-place mutations of them."""
+    import jsonschema
+    from checks.common import load_known_findings
+    from specs.json_mutations import apply
+    d = os.path.join(VERIF, "replays", "C17")
+    os.makedirs(d, exist_ok=True)
+    probes = os.path.join(d, "decoder_probes.json")
+    if os.path.exists(probes):
+        os.remove(probes)
+    env = dict(env, VERIF_C17_PROBES=probes, VERIF_TIER=tier)
+    p = subprocess.run([VENV_PY, "-m", "ground.c17_decoder"], capture_output=True, text=True, env=env, cwd=VERIF, timeout=1800)
+    if not os.path.exists(probes):
+        res.errors.append("ground.c17_decoder did not run: " + (p.stdout + p.stderr)[-300:])
+        return
+    data = json.load(open(probes))
+    root = os.path.dirname(os.path.dirname(repo_src().rstrip("/")))       # <repo>/hugr-py/src -> <repo>
+    validators = {}
+    for cfg, fn in (("strict", f"hugr_schema_strict_{data['version']}.json"), ("lax", f"hugr_schema_{data['version']}.json")):
+        path = os.path.join(root, "specification", "schema", fn)
+        if not os.path.exists(path):
+            res.errors.append(f"published schema {fn} not found")
+            return
+        sch = dict(json.load(open(path)))
+        sch["$ref"] = "#/$defs/SerialHugr"
+        validators[cfg] = jsonschema.Draft202012Validator(sch)
+    listed = {k["id"]: k for k in load_known_findings("C17")}
+    counts, disagreements, known_hits = {}, [], {}
+    for cfg, di, m, dec_ok in data["probes"]:
+        doc = data["docs"][di] if m is None else apply(data["docs"][di], tuple(m))
+        sch_ok = validators[cfg].is_valid(doc)
+        key = f"{cfg}/{m[0] if m else 'unchanged'}"
+        counts[key] = counts.get(key, 0) + 1
+        if sch_ok == dec_ok:
+            continue
+        if m is not None and m[0] == "drop" and m[1] == [] and m[2] == "version" and dec_ok and not sch_ok:
+            known_hits["C17-version-optional-for-the-decoder"] = known_hits.get("C17-version-optional-for-the-decoder", 0) + 1
+            continue
+        disagreements.append((cfg, data["names"][di], di, m, dec_ok, sch_ok))
+    res.ground.append({"check": "decoder (configured through SerialHugr._pydantic_rebuild) and published schema give the same verdict on documents and their one-place mutations",
+                       "ok": not disagreements, "probes": len(data["probes"]), "by_kind": counts, "disagreements": len(disagreements),
+                       "first": [list(map(str, x)) for x in disagreements[:3]]})
+    for kid, n in known_hits.items():
+        if kid in listed:
+            res.known.append(f"{kid}: {listed[kid]['what']} [{n} probes in this run]")
+        else:
+            fn = os.path.join(d, f"unlisted_{kid}.py")
+            open(fn, "w").write(replay_header("C17", f"deviation {kid} is not a listed known finding") + "\nsys.exit(1)\n")
+            res.violations.append({"clause": f"{kid}: the decoder accepts a document without 'version', the published schema requires it", "replay": fn, "confirmed": True})
+    seen = set()
+    for (cfg, name, di, m, dec_ok, sch_ok) in disagreements:
+        k = (cfg, m[0] if m else None, dec_ok)
+        if k in seen or len(seen) >= 4:
+            continue
+        seen.add(k)
+        fn = os.path.join(d, f"decoder_vs_schema_{len(seen)}.py")
+        open(fn, "w").write(replay_header("C17", f"{cfg} configuration, document {name!r}, mutation {m}: decoder {'accepts' if dec_ok else 'rejects'}, published schema {'accepts' if sch_ok else 'rejects'}") + f"""
+import json, subprocess
+from pydantic import ConfigDict
+from hugr._serialization.serial_hugr import SerialHugr
+from ground.c17_decoder import corpus
+from specs.json_mutations import apply
+cfg = {cfg!r}
+doc = corpus()[{di}][1]
+m = {m!r}
+doc = doc if m is None else apply(doc, tuple(m))
+SerialHugr._pydantic_rebuild(ConfigDict(strict=True, extra="forbid") if cfg == "strict" else ConfigDict(strict=False, extra="allow"), force=True)
+try:
+    SerialHugr.model_validate_json(json.dumps(doc)); dec = True
+except Exception as e:
+    dec = False
+root = os.path.dirname(os.path.dirname(os.environ.get("VERIF_REPO_SRC", "/repo/hugr-py/src").rstrip("/")))
+fn = os.path.join(root, "specification", "schema", ("hugr_schema_strict_" if cfg == "strict" else "hugr_schema_") + SerialHugr.get_version() + ".json")
+code = "import json,sys,jsonschema; s=dict(json.load(open(sys.argv[1]))); s['$ref']='#/$defs/SerialHugr'; print(jsonschema.Draft202012Validator(s).is_valid(json.loads(sys.stdin.read())))"
+sch = subprocess.run(["python3-vt", "-c", code, fn], input=json.dumps(doc), capture_output=True, text=True).stdout.strip() == "True"
+print("decoder accepts:", dec, "| published schema accepts:", sch)
+sys.exit(0 if dec == sch else 1)
+""")
+        res.violations.append({"clause": f"{cfg} configuration: the decoder {'accepts' if dec_ok else 'rejects'} and the published schema {'accepts' if sch_ok else 'rejects'} "
+                                         f"document {name!r} with mutation {m}", "replay": fn, "confirmed": True})
+
+
 def run(tier, seed):
     res = CheckResult("C17", tier, seed)
     env = dict(os.environ)
@@ -61,7 +144,8 @@ sys.exit(1 if any(not x["ok"] for x in now) else 0)
 """)
                 w = r["problems"][0] if r.get("problems") else {}
                 res.violations.append({"clause": f"enumerated position {w.get('path')}: the decoder {'accepts' if w.get('decoder_accepts') else 'rejects'} {w.get('value')!r}, the published schema lists {w.get('published_enumeration')}", "replay": fn, "confirmed": True})
-    res.trusted_base = ["pydantic: validation by a model == validation against the JSON schema generated from that model (assumed; this is the reduction step)",
+    decoder_vs_schema(res, env, tier)
+    res.trusted_base = ["pydantic: validation by a model == validation against the JSON schema generated from that model (the reduction step; no longer only assumed: probed on one-place mutations of real documents under both configurations, third ground decision)",
                         "the repository's own scripts/generate_schema.py is executed as is (real models, real script) into a scratch directory"] + data.get("rules", [])
     res.assumptions = ["this property is decided by a closed ground comparison (equality of two finite JSON values), not by a code contract - see DESIGN 5/C17"]
     res.level = "other"
